@@ -3,14 +3,22 @@
 From Coq Require Import ZArith.
 From OCI Require Import Machine Checkers.
 From OCI.proofs Require Import ArithOk Trace InvKnown ChkKnown IterBase ChkIter ChkAll.
+From OCI.proofs Require Import GapFree.
 Open Scope N_scope.
 
-Check all_C03 : forall e, src_env e -> forall progs, wf_progs progs -> forall sched,
+Check all_C03 : forall e, src_env e -> fused e -> forall progs, wf_progs progs -> forall sched,
   nowrap (c_labels (exec e (init progs) sched)) ->
   chk_C03 e (c_trace (exec e (init progs) sched)) = true.
-Theorem c03_chunk_contract : forall e, src_env e -> forall progs, wf_progs progs -> forall sched,
+Theorem c03_chunk_contract : forall e, src_env e -> fused e -> forall progs, wf_progs progs -> forall sched,
   nowrap (c_labels (exec e (init progs) sched)) ->
   chk_C03 e (c_trace (exec e (init progs) sched)) = true.
 Proof. exact all_C03. Qed.
 Print Assumptions c03_chunk_contract.
 
+(** a wrapped iterator that is not fused: the chunk contract holds on every run on which the wrapped next() has not yet answered None although elements remain; after such an answer a chunk may be short in the middle of the source and carry an index that is not the position of its first element ([Examples.gap_breaks_the_mixed_accounting]) *)
+Theorem c03_chunk_contract_until_first_gap : forall e, iter_env e -> forall progs, wf_progs progs -> forall sched,
+  nowrap (c_labels (exec e (init progs) sched)) ->
+  gap_free e (s_calls (c_sh (exec e (init progs) sched))) ->
+  check_prop 3 e (c_trace (exec e (init progs) sched)) (c_labels (exec e (init progs) sched)) = true.
+Proof. exact iter_C03_until_gap. Qed.
+Print Assumptions c03_chunk_contract_until_first_gap.
